@@ -19,6 +19,7 @@ import warnings
 from itertools import product
 import unified_planning as up
 import unified_planning.engines as engines
+from unified_planning.exceptions import UPConflictingEffectsException
 from unified_planning.engines.mixins.compiler import CompilationKind, CompilerMixin
 from unified_planning.engines.results import CompilerResult
 from unified_planning.model import (
@@ -216,11 +217,16 @@ class UsertypeFluentsRemover(engines.engine.Engine, CompilerMixin):
                     new_action.add_precondition(
                         utf_remover.remove_usertype_fluents_from_condition(p)
                     )
-                for e in old_action.effects:
-                    for ne in self._convert_effect(
-                        e, problem, fluents_map, em, utf_remover
-                    ):
-                        new_action._add_effect_instance(ne)
+                try:
+                    for e in old_action.effects:
+                        for ne in self._convert_effect(
+                            e, problem, fluents_map, em, utf_remover
+                        ):
+                            new_action._add_effect_instance(ne)
+                except UPConflictingEffectsException:
+                    # a converted effect whose condition simplified to true conflicts with
+                    # another effect: the original action can not be applied, it is left out
+                    continue
                 if old_action.simulated_effect is not None:
                     new_action.set_simulated_effect(
                         self._convert_simulated_effect(
@@ -237,12 +243,15 @@ class UsertypeFluentsRemover(engines.engine.Engine, CompilerMixin):
                         new_action.add_condition(
                             i, utf_remover.remove_usertype_fluents_from_condition(c)
                         )
-                for t, el in old_action.effects.items():
-                    for e in el:
-                        for ne in self._convert_effect(
-                            e, problem, fluents_map, em, utf_remover
-                        ):
-                            new_action._add_effect_instance(t, ne)
+                try:
+                    for t, el in old_action.effects.items():
+                        for e in el:
+                            for ne in self._convert_effect(
+                                e, problem, fluents_map, em, utf_remover
+                            ):
+                                new_action._add_effect_instance(t, ne)
+                except UPConflictingEffectsException:
+                    continue
                 duration = old_action.duration
                 new_duration = DurationInterval(
                     utf_remover.remove_usertype_fluents_from_condition(duration.lower),
